@@ -311,9 +311,11 @@ func scanGrid(p *pureAcc) {
 					}
 				}
 			}
-			for _, b := range k.GetOwnerServiceBindings(ctx, o, n) {
-				gotO = append(gotO, b.ServiceName+"/"+hexs(b.Provider))
-			}
+			safely(p, "bindings-of-service-and-owner", func() {
+				for _, b := range k.GetOwnerServiceBindings(ctx, o, n) {
+					gotO = append(gotO, b.ServiceName+"/"+hexs(b.Provider))
+				}
+			})
 			chk("bindings-of-service-and-owner", n+"/"+hexs(o), wo, gotO)
 		}
 	}
@@ -408,12 +410,21 @@ func scanGrid(p *pureAcc) {
 	}
 }
 
+func safely(p *pureAcc, what string, f func()) {
+	defer func() {
+		if r := recover(); r != nil {
+			p.fail("scan-does-not-panic", what, fmt.Sprintf("%s panics on the universe of prefix-related names and addresses of every length: %v", what, r), what)
+		}
+	}()
+	f()
+}
+
 func keysAndIDs(tier string) (*PureEvidence, []Found) {
 	p := &pureAcc{ev: &PureEvidence{Counters: map[string]int64{}, Rule: "F-PURE: (a) request-context and request ID construction/splitting over the cross product of boundary transaction hashes, message indexes, batch counters, heights and indexes; (b) every key builder over names {a,ab,a-b,b,a_} x addresses of length 1,2,20,21 closed under prefix x boundary heights/IDs, all pairs compared; (c) every scan function of the keeper on a real store populated with that universe; distinct = distinct IDs + distinct keys built"},
 		found: map[string]*Found{}}
-	idGrid(p)
-	keyGrid(p)
-	scanGrid(p)
+	safely(p, "id-grid", func() { idGrid(p) })
+	safely(p, "key-grid", func() { keyGrid(p) })
+	safely(p, "scan-grid", func() { scanGrid(p) })
 	p.ev.Distinct = p.ev.Counters["context-ids"] + p.ev.Counters["request-ids"] + p.ev.Counters["distinct-keys"]
 	var out []Found
 	for _, f := range p.found {
